@@ -2459,9 +2459,9 @@ def _emit_block(
             lines.append(f"{indent}  if (__redu_end < 0.0f) {{ __redu_end = 0.0f; }}")
             lines.extend(_emit_duration_ms(f"{indent}  ", "__redu_total", node.duration_ms))
             lines.append(f"{indent}  int __redu_steps = static_cast<int>({steps_expr});")
-            lines.append(f"{indent}  if (__redu_steps < 1) {{ __redu_steps = 1; }}")
+            lines.append(f"{indent}  if (__redu_steps < 0) {{ __redu_steps = 0; }}")
             lines.append(
-                f"{indent}  unsigned long __redu_step_delay = __redu_total / static_cast<unsigned long>(__redu_steps);"
+                f"{indent}  unsigned long __redu_step_delay = (__redu_steps > 0) ? (__redu_total / static_cast<unsigned long>(__redu_steps)) : 0UL;"
             )
             lines.append(f"{indent}  for (int __redu_i = 0; __redu_i < __redu_steps; ++__redu_i) {{")
             lines.append(
